@@ -92,6 +92,21 @@ def gen(tier, seed):
                 enc = ['none', 'utf-8', 'latin-1'][k % 3] if js == 0 else ['utf-8', 'latin-1'][k % 2]
                 cases.append((pol, js, enc, d, sep, [r]))
         exhaustive['%s d=%r one-row tables, field1 len<=%d, field2 len<=2, alphabet=%r' % (pol, d, L, ''.join(alpha))] = True
+    # a BOM-like prefix anywhere but at the very start of the data is ordinary content
+    for pol, d in CONFIGS:
+        if pol in ('whitespace',):
+            continue
+        for enc, bom in (('utf-8', '\ufeff'), ('latin-1', 'ï»¿'), ('none', '\ufeff')):
+            for js in (0, 1):
+                if js and enc == 'none':
+                    continue
+                tabs = [[['x'], [bom + 'q']], [['x'], ['y'], [bom]], [['x', bom + 'q']], [['x' + bom, 'y'], [bom + bom, 'z']]]
+                if pol == 'quoted_rfc':
+                    tabs.append([['a\n' + bom + 'b', 'c']])
+                for t in tabs:
+                    if pol == 'monocolumn':
+                        t = [r[:1] for r in t]
+                    cases.append((pol, js, enc, d, '\n', t))
     # latin-1: every byte value survives
     allbytes = [chr(i) for i in range(256)]
     for pol, d in (('quoted_rfc', ','), ('quoted', ';')):
@@ -102,7 +117,7 @@ def gen(tier, seed):
             cases.append((pol, js, 'latin-1', d, '\r\n', [[''.join(c for c in allbytes if c not in '\r\n"'), ''.join(allbytes[32:128])]]))
     exhaustive['all 256 latin-1 code points in one table'] = True
     rnd = random.Random(seed * 49979687 + 10)
-    pool = ['a', 'b', '"', ',', ' ', '\t', '\n', '\r', '#', ';', '|', 'é', '中', '\U0001F600', '\\', "'"]
+    pool = ['a', 'b', '"', ',', ' ', '\t', '\n', '\r', '#', ';', '|', 'é', '中', '\U0001F600', '\\', "'", '\ufeff']
     for _ in range(3000 if tier == 'quick' else 50000):
         pol = rnd.choice(['quoted', 'quoted_rfc', 'simple', 'whitespace', 'monocolumn'])
         d = {'whitespace': ' ', 'monocolumn': ''}.get(pol) if pol in ('whitespace', 'monocolumn') else rnd.choice([',', ';', '\t', '|', ' ', '##', ',;', '¦'])
